@@ -1,1 +1,1 @@
-from . import m2  # noqa
+from . import m2, m3  # noqa
